@@ -26,7 +26,9 @@ MANIFEST = dict(
          "current set) or after exactly niter passes; the weighted median returns the value at sorted position k exactly when the "
          "remaining weight exceeds half the total for all earlier positions and not for k, or, when the position is computed in closed form "
          "(cumsum, or the running difference total - cumsum spelled subtract.accumulate, + searchsorted / argmax / where / count over the weights in sorted order), is the first position whose running weight is >= "
-         "half the total by the abstract meaning of these primitives; the summary helper wires "
+         "half the total by the abstract meaning of these primitives, and on no path that equal positive weights of some size take (the path "
+         "tests evaluated abstractly over that family: relations linear in the size n) is the value returned a blend of the data (the plain "
+         "median / middle quantile for even n, an average, arithmetic on several sorted entries) instead of one entry; the summary helper wires "
          "min/max/mean/deviation/error from these routines in the right roles with the right keywords (a key popped from the caller's keywords is gone from what is handed on: an option the delegated routine names must then be passed explicitly), and on every path on which nsig/niter "
          "can be among the caller's keywords each reported statistic is taken from a sigma_clip call on the data that is given the caller's weights "
          "(reductions / wmom components over the whole array there are a violation).",
